@@ -171,7 +171,13 @@ func parseTags(v string) (ts tagSet, elem string) {
 
 const letters = "abcdefghijklmnopqrstuvwxyzABCDEFGHIJKLMNOPQRSTUVWXYZ0123456789"
 
+// StrGen, when set, produces the n-rune strings of generated payloads (C04 uses a UTF-8 pool).
+var StrGen func(rng *rand.Rand, n int) string
+
 func randString(rng *rand.Rand, n int) string {
+	if StrGen != nil {
+		return StrGen(rng, n)
+	}
 	b := make([]byte, n)
 	for i := range b {
 		b[i] = letters[rng.Intn(len(letters))]
